@@ -218,6 +218,8 @@ def classify(fn, src, pm):
                 cur = par
                 continue
             if name in POSITIONAL:
+                if name in ("next", "first", "last", "nth", "peek") and _under_singleton_guard(src, par, pm):
+                    return Consumer("ok", "`%s` under a test that the container has exactly one element (one iteration order only)" % name, par, "->".join(chain))
                 return Consumer("order", "positional adaptor/consumer `%s`" % name, par, "->".join(chain))
             if name in ORDER_FREE_TERMINALS:
                 return Consumer("ok", "order-insensitive `%s`" % name, par, "->".join(chain))
@@ -293,6 +295,35 @@ def classify(fn, src, pm):
         if k == "Closure":
             return Consumer("derived", "closure result in iteration order", par, "->".join(chain))
         return Consumer("unclassified", "iterator flows into `%s`" % k, par, "->".join(chain))
+
+
+def _under_singleton_guard(src, node, pm):
+    """node sits in the then-branch of `if <container>.len() == 1` (or `<= 1`, `< 2`) where <container> is the one `src`
+    iterates over"""
+    root = None
+    if src.get("k") == "MethodCall":
+        root = root_local(src["recv"])
+    elif src.get("k") == "Call" and src.get("args"):
+        root = root_local(src["args"][0])
+    if root is None:
+        return False
+    cur = node
+    while True:
+        par = pm.get(id(cur))
+        if par is None:
+            return False
+        if par.get("k") == "If" and any(x is cur for x in walk(par["then"])):
+            cond = strip(par["c"])
+            while cond.get("k") in ("DropTemps", "Paren"):
+                cond = strip(cond["e"])
+            if cond.get("k") == "Binary" and cond["op"] in ("==", "<=", "<"):
+                l, r_ = peel_refs(cond["l"]), peel_refs(cond["r"])
+                if l.get("k") == "MethodCall" and l["name"] == "len" and r_.get("k") == "Lit":
+                    rl = root_local(l["recv"])
+                    lim = str(r_.get("v"))
+                    if rl is not None and rl["local"] == root["local"] and ((cond["op"] in ("==", "<=") and lim == "1") or (cond["op"] == "<" and lim == "2")):
+                        return True
+        cur = par
 
 
 def follow_collection(fn, node, pm, chain):
@@ -662,10 +693,20 @@ def _total_predicate_near(fn, assign, body):
             for a in n["arms"]:
                 if a.get("guard") is not None:
                     cands.append(a["guard"])
+    closures = {}
+    for y in walk(fn["body"]):
+        if y.get("k") == "LetStmt" and y.get("init") is not None and y["pat"].get("k") == "Bind" and strip(y["init"]).get("k") == "Closure":
+            closures[y["pat"]["local"]] = (y["pat"]["name"], strip(y["init"]))
     for e in cands:
         for y in walk(e):
             if y.get("k") == "Call" and len(y["args"]) == 2:
                 f = strip(y["f"])
+                if f.get("k") == "Path" and f.get("local") in closures:
+                    # a predicate written as a local closure: `let keeps_place = |a: (&L, &f32), b: (&L, &f32)| ..`
+                    nm_, clo_ = closures[f["local"]]
+                    if predicate_consults_keys(clo_):
+                        return nm_
+                    continue
                 d = c.dfn(f.get("def")) if f.get("k") == "Path" else None
                 g = FN_INDEX.get((d.get("krate"), d.get("raw"))) if d else None
                 if g is not None and predicate_consults_keys(g):
